@@ -466,3 +466,557 @@ pub proof fn lemma_class7_swap(cards: Seq<Card>, i: int, j: int)
         assert forall|r: int| 0 <= r < 13 implies mult(sw)[r] == mult(cards)[r] by { lemma_counts_swap(cards, i, j, Suit::Spade, r); }
     }
 }
+
+// ---------- best_of is the minimum of class5 over ALL five-card sub-vectors (first principles at rank level) ----------
+
+pub open spec fn sub_le(a: Seq<u8>, b: Seq<u8>) -> bool {
+    a.len() == 13 && b.len() == 13 && forall|r: int| 0 <= r < 13 ==> #[trigger] a[r] <= b[r]
+}
+
+pub proof fn lemma_vsum_le(a: Seq<u8>, b: Seq<u8>, from: int)
+    requires sub_le(a, b), 0 <= from <= 13,
+    ensures vsum(a, from) <= vsum(b, from),
+        vsum(a, from) == vsum(b, from) ==> forall|r: int| from <= r < 13 ==> a[r] == b[r],
+    decreases 13 - from
+{
+    if from < 13 { lemma_vsum_le(a, b, from + 1); assert(a[from] <= b[from]); }
+}
+
+/// best_drop is at most every candidate it ranges over
+pub proof fn lemma_best_drop_le(q: Seq<u8>, flush: bool, n: int, from: int, a: int)
+    requires q.len() == 13, n > 5, 0 <= from <= a < 13, q[a] > 0,
+    ensures best_drop(q, flush, n, from) <= best_of(vdec(q, a), flush, n - 1),
+    decreases 13 - from
+{
+    if from < a { lemma_best_drop_le(q, flush, n, from + 1, a); }
+}
+
+/// (A) no five-card sub-hand is better than best_of
+pub proof fn lemma_best_of_lower(q: Seq<u8>, q5: Seq<u8>, flush: bool, n: int)
+    requires q.len() == 13, 5 <= n <= 7, vsum(q, 0) == n, sub_le(q5, q), vsum(q5, 0) == 5,
+    ensures best_of(q, flush, n) <= class5(q5, flush),
+    decreases n
+{
+    lemma_vsum_le(q5, q, 0);
+    if n == 5 {
+        assert(q5 =~= q);
+    } else {
+        // some rank has more cards in q than in q5: discard one there
+        let a = lemma_find_gap(q5, q, 0);
+        lemma_vsum_dec(q, a, 0);
+        assert(sub_le(q5, vdec(q, a))) by {
+            assert forall|r: int| 0 <= r < 13 implies #[trigger] q5[r] <= vdec(q, a)[r] by { assert(q5[r] <= q[r]); }
+        }
+        lemma_best_of_lower(vdec(q, a), q5, flush, n - 1);
+        lemma_best_drop_le(q, flush, n, 0, a);
+    }
+}
+
+pub proof fn lemma_find_gap(a: Seq<u8>, b: Seq<u8>, from: int) -> (r: int)
+    requires sub_le(a, b), 0 <= from <= 13, vsum(a, from) < vsum(b, from),
+    ensures from <= r < 13, a[r] < b[r],
+    decreases 13 - from
+{
+    if a[from] < b[from] { from } else { assert(a[from] <= b[from]); lemma_find_gap(a, b, from + 1) }
+}
+
+/// (B) best_of is attained by some five-card sub-hand (or is NOCLASS when nothing can be discarded)
+pub open spec fn fcap(flush: bool) -> int { if flush { 1 } else { 4 } }
+
+pub proof fn lemma_best_of_attained(q: Seq<u8>, flush: bool, n: int) -> (q5: Seq<u8>)
+    requires q.len() == 13, 5 <= n <= 7, vsum(q, 0) == n, classes_ok(), vec_ok(q, fcap(flush)),
+    ensures sub_le(q5, q), vsum(q5, 0) == 5, best_of(q, flush, n) == class5(q5, flush),
+    decreases n, 14int
+{
+    if n == 5 { q } else {
+        let a0 = lemma_find_pos(q, 0);
+        let (a, q5) = lemma_best_drop_attained(q, flush, n, 0, a0);
+        q5
+    }
+}
+
+pub proof fn lemma_find_pos(q: Seq<u8>, from: int) -> (r: int)
+    requires q.len() == 13, 0 <= from <= 13, vsum(q, from) > 0,
+    ensures from <= r < 13, q[r] > 0,
+    decreases 13 - from
+{
+    if q[from] > 0 { from } else { lemma_find_pos(q, from + 1) }
+}
+
+pub proof fn lemma_best_drop_attained(q: Seq<u8>, flush: bool, n: int, from: int, a0: int) -> (r: (int, Seq<u8>))
+    requires q.len() == 13, 5 < n <= 7, vsum(q, 0) == n, 0 <= from <= a0 < 13, q[a0] > 0, classes_ok(), vec_ok(q, fcap(flush)),
+    ensures from <= r.0 < 13, q[r.0] > 0, sub_le(r.1, q), vsum(r.1, 0) == 5,
+        best_drop(q, flush, n, from) == class5(r.1, flush), best_drop(q, flush, n, from) == best_of(vdec(q, r.0), flush, n - 1),
+    decreases n, 13 - from
+{
+    // candidate at `from` (if any) against the best of the rest
+    assert forall|x: int| 0 <= x < 13 && q[x] > 0 implies vec_ok(#[trigger] vdec(q, x), fcap(flush)) by {
+        assert forall|i: int| 0 <= i < 13 implies 0 <= #[trigger] vdec(q, x)[i] <= fcap(flush) by { assert(0 <= q[i] <= fcap(flush)); }
+    }
+    if from == a0 {
+        lemma_vsum_dec(q, from, 0);
+        let c5 = lemma_best_of_attained(vdec(q, from), flush, n - 1);
+        assert(sub_le(c5, q)) by { assert forall|r: int| 0 <= r < 13 implies #[trigger] c5[r] <= q[r] by { assert(c5[r] <= vdec(q, from)[r]); } }
+        let cand = best_of(vdec(q, from), flush, n - 1);
+        // is there another positive entry later?
+        if exists|b: int| from < b < 13 && q[b] > 0 {
+            let b = choose|b: int| from < b < 13 && q[b] > 0;
+            let rest = lemma_best_drop_attained(q, flush, n, from + 1, b);
+            if cand <= best_drop(q, flush, n, from + 1) { (from, c5) } else { rest }
+        } else {
+            lemma_best_drop_none(q, flush, n, from + 1);
+            assert(vec_ok(c5, fcap(flush))) by {
+                assert forall|i: int| 0 <= i < 13 implies 0 <= #[trigger] c5[i] <= fcap(flush) by { assert(c5[i] <= q[i] && 0 <= q[i] <= fcap(flush)); }
+            }
+            assert(class5_slot_ok(c5, flush));
+            (from, c5)
+        }
+    } else {
+        let rest = lemma_best_drop_attained(q, flush, n, from + 1, a0);
+        if q[from] > 0 {
+            lemma_vsum_dec(q, from, 0);
+            let c5 = lemma_best_of_attained(vdec(q, from), flush, n - 1);
+            assert(sub_le(c5, q)) by { assert forall|r: int| 0 <= r < 13 implies #[trigger] c5[r] <= q[r] by { assert(c5[r] <= vdec(q, from)[r]); } }
+            if best_of(vdec(q, from), flush, n - 1) <= best_drop(q, flush, n, from + 1) { (from, c5) } else { rest }
+        } else { rest }
+    }
+}
+
+pub proof fn lemma_best_drop_none(q: Seq<u8>, flush: bool, n: int, from: int)
+    requires q.len() == 13, 0 <= from <= 13, forall|b: int| from <= b < 13 ==> q[b] == 0,
+    ensures best_drop(q, flush, n, from) == NOCLASS,
+    decreases 13 - from
+{
+    if from < 13 && n > 5 { lemma_best_drop_none(q, flush, n, from + 1); }
+}
+
+
+// ---------- first principles at card level: class7 is the best class among the 21 five-card sub-hands ----------
+
+/// the five cards left after removing positions i < j
+pub open spec fn without2(cards: Seq<Card>, i: int, j: int) -> Seq<Card> { cards.remove(j).remove(i) }
+
+pub open spec fn same_suit(h: Seq<Card>) -> bool { forall|k: int| 0 <= k < h.len() ==> (#[trigger] h[k]).1 == h[0].1 }
+
+/// the standard class of five concrete cards
+pub open spec fn class5_cards(h: Seq<Card>) -> int {
+    if same_suit(h) { class5(suit_mult(h, h[0].1), true) } else { class5(mult(h), false) }
+}
+
+/// v is the class of the best five-card hand contained in the seven cards
+pub open spec fn is_best7(cards: Seq<Card>, v: int) -> bool {
+    &&& forall|i: int, j: int| 0 <= i < j < 7 ==> v <= class5_cards(#[trigger] without2(cards, i, j))
+    &&& exists|i: int, j: int| 0 <= i < j < 7 && v == class5_cards(#[trigger] without2(cards, i, j))
+}
+
+pub proof fn lemma_counts_remove(cards: Seq<Card>, i: int, s: Suit, r: int)
+    requires 0 <= i < cards.len(),
+    ensures
+        cnt_suit(cards.remove(i), s) == cnt_suit(cards, s) - ind_suit(cards[i], s),
+        cnt_card(cards.remove(i), r, s) == cnt_card(cards, r, s) - ind_card(cards[i], r, s),
+        cnt_rank(cards.remove(i), r) == cnt_rank(cards, r) - ind_rank(cards[i], r),
+    decreases cards.len()
+{
+    let u = cards.remove(i);
+    if i == cards.len() - 1 {
+        assert(u =~= cards.drop_last());
+    } else {
+        lemma_counts_remove(cards.drop_last(), i, s, r);
+        assert(u.drop_last() =~= cards.drop_last().remove(i));
+        assert(u.last() == cards.last());
+    }
+}
+
+pub proof fn lemma_without2_counts(cards: Seq<Card>, i: int, j: int, s: Suit, r: int)
+    requires 0 <= i < j < cards.len(),
+    ensures
+        without2(cards, i, j).len() == cards.len() - 2,
+        cnt_suit(without2(cards, i, j), s) == cnt_suit(cards, s) - ind_suit(cards[i], s) - ind_suit(cards[j], s),
+        cnt_card(without2(cards, i, j), r, s) == cnt_card(cards, r, s) - ind_card(cards[i], r, s) - ind_card(cards[j], r, s),
+        cnt_rank(without2(cards, i, j), r) == cnt_rank(cards, r) - ind_rank(cards[i], r) - ind_rank(cards[j], r),
+{
+    lemma_counts_remove(cards, j, s, r);
+    let c1 = cards.remove(j);
+    assert(c1[i] == cards[i]);
+    lemma_counts_remove(c1, i, s, r);
+}
+
+pub proof fn lemma_without2_distinct(cards: Seq<Card>, i: int, j: int)
+    requires 0 <= i < j < cards.len(), distinct_cards(cards),
+    ensures distinct_cards(without2(cards, i, j)),
+{
+    let h = without2(cards, i, j);
+    assert forall|x: int, y: int| 0 <= x < y < h.len() implies h[x] != h[y] by {
+        let px = if x < i { x } else if x < j - 1 { x + 1 } else { x + 2 };
+        let py = if y < i { y } else if y < j - 1 { y + 1 } else { y + 2 };
+        assert(h[x] == cards[px] && h[y] == cards[py]);
+    }
+}
+
+/// a rank that occurs at least once (twice) occurs at some position (two positions)
+pub proof fn lemma_find_rank(cards: Seq<Card>, r: int) -> (i: int)
+    requires cnt_rank(cards, r) >= 1,
+    ensures 0 <= i < cards.len(), rank_code(cards[i].0) == r,
+    decreases cards.len()
+{
+    if rank_code(cards.last().0) == r { cards.len() - 1 } else { lemma_find_rank(cards.drop_last(), r) }
+}
+
+pub proof fn lemma_find_rank2(cards: Seq<Card>, r: int) -> (p: (int, int))
+    requires cnt_rank(cards, r) >= 2,
+    ensures 0 <= p.0 < p.1 < cards.len(), rank_code(cards[p.0].0) == r, rank_code(cards[p.1].0) == r,
+    decreases cards.len()
+{
+    if rank_code(cards.last().0) == r {
+        let i = lemma_find_rank(cards.drop_last(), r);
+        (i, cards.len() - 1)
+    } else { lemma_find_rank2(cards.drop_last(), r) }
+}
+
+pub proof fn lemma_mult_without2(cards: Seq<Card>, i: int, j: int)
+    requires 0 <= i < j < cards.len(), cards.len() == 7,
+    ensures sub_le(mult(without2(cards, i, j)), mult(cards)), vsum(mult(without2(cards, i, j)), 0) == 5,
+{
+    let h = without2(cards, i, j);
+    assert forall|r: int| 0 <= r < 13 implies #[trigger] mult(h)[r] <= mult(cards)[r] by {
+        lemma_without2_counts(cards, i, j, Suit::Spade, r);
+        lemma_cnt_nonneg(cards, r, Suit::Spade);
+        lemma_cnt_nonneg(h, r, Suit::Spade);
+    }
+    lemma_without2_counts(cards, i, j, Suit::Spade, 0);
+    lemma_rsum_total(h);
+    lemma_vsum_mult(h, 0);
+}
+
+/// no five of the seven cards share a suit when no suit has five cards
+pub proof fn lemma_no_flush_sub(cards: Seq<Card>, i: int, j: int)
+    requires 0 <= i < j < cards.len(), cards.len() == 7, forall|s: Suit| cnt_suit(cards, s) < 5,
+    ensures !same_suit(without2(cards, i, j)),
+{
+    let h = without2(cards, i, j);
+    if same_suit(h) {
+        let s = h[0].1;
+        lemma_all_suit(h, s);
+        lemma_without2_counts(cards, i, j, s, 0);
+    }
+}
+
+pub proof fn lemma_all_suit(h: Seq<Card>, s: Suit)
+    requires forall|k: int| 0 <= k < h.len() ==> (#[trigger] h[k]).1 == s,
+    ensures cnt_suit(h, s) == h.len(),
+    decreases h.len()
+{
+    if h.len() > 0 {
+        assert forall|k: int| 0 <= k < h.drop_last().len() implies (#[trigger] h.drop_last()[k]).1 == s by { assert(h.drop_last()[k] == h[k]); }
+        lemma_all_suit(h.drop_last(), s);
+    }
+}
+
+/// C01, first principles, hands without five cards of one suit
+pub proof fn lemma_class7_is_best_noflush(cards: Seq<Card>)
+    requires cards.len() == 7, distinct_cards(cards), classes_ok(), forall|s: Suit| cnt_suit(cards, s) < 5,
+    ensures is_best7(cards, class7(cards)),
+{
+    let q = mult(cards);
+    lemma_mult_ok(cards);
+    lemma_rsum_total(cards);
+    lemma_vsum_mult(cards, 0);
+    assert(class7(cards) == best_of(q, false, 7));
+    assert forall|i: int, j: int| 0 <= i < j < 7 implies class7(cards) <= class5_cards(#[trigger] without2(cards, i, j)) by {
+        lemma_no_flush_sub(cards, i, j);
+        lemma_mult_without2(cards, i, j);
+        lemma_best_of_lower(q, mult(without2(cards, i, j)), false, 7);
+    }
+    let q5 = lemma_best_of_attained(q, false, 7);
+    // the two discarded ranks
+    lemma_vsum_le(q5, q, 0);
+    let a = lemma_find_gap(q5, q, 0);
+    let qa = vdec(q, a);
+    lemma_vsum_dec(q, a, 0);
+    assert(sub_le(q5, qa)) by { assert forall|r: int| 0 <= r < 13 implies #[trigger] q5[r] <= qa[r] by { assert(q5[r] <= q[r]); } }
+    lemma_vsum_le(q5, qa, 0);
+    let b = lemma_find_gap(q5, qa, 0);
+    let qb = vdec(qa, b);
+    lemma_vsum_dec(qa, b, 0);
+    assert(sub_le(q5, qb)) by { assert forall|r: int| 0 <= r < 13 implies #[trigger] q5[r] <= qb[r] by { assert(q5[r] <= qa[r]); } }
+    lemma_vsum_le(q5, qb, 0);
+    assert(q5 =~= qb);
+    // positions holding those ranks
+    lemma_cnt_nonneg(cards, a, Suit::Spade);
+    lemma_cnt_nonneg(cards, b, Suit::Spade);
+    let (i, j) = if a == b {
+        assert(cnt_rank(cards, a) >= 2);
+        lemma_find_rank2(cards, a)
+    } else {
+        let x = lemma_find_rank(cards, a);
+        let y = lemma_find_rank(cards, b);
+        if x < y { (x, y) } else { (y, x) }
+    };
+    let h = without2(cards, i, j);
+    lemma_no_flush_sub(cards, i, j);
+    assert(mult(h) =~= q5) by {
+        assert forall|r: int| 0 <= r < 13 implies mult(h)[r] == q5[r] by {
+            lemma_without2_counts(cards, i, j, Suit::Spade, r);
+            lemma_cnt_nonneg(cards, r, Suit::Spade);
+            lemma_cnt_nonneg(h, r, Suit::Spade);
+        }
+    }
+    assert(class7(cards) == class5_cards(without2(cards, i, j)));
+}
+
+// ---------- ... and hands with five or more cards of one suit ----------
+
+pub proof fn lemma_first_eq_prop(q: Seq<u8>, v: int, from: int)
+    requires q.len() == 13, 0 <= from <= 13,
+    ensures from <= first_eq(q, v, from) <= 13,
+        first_eq(q, v, from) < 13 ==> q[first_eq(q, v, from)] as int == v,
+        first_eq(q, v, from) == 13 ==> forall|i: int| from <= i < 13 ==> q[i] as int != v,
+    decreases 13 - from
+{
+    if from < 13 && q[from] as int != v { lemma_first_eq_prop(q, v, from + 1); }
+}
+
+pub proof fn lemma_cnt_full_suit(h: Seq<Card>, s: Suit)
+    requires cnt_suit(h, s) == h.len(),
+    ensures forall|k: int| 0 <= k < h.len() ==> (#[trigger] h[k]).1 == s,
+    decreases h.len()
+{
+    if h.len() > 0 {
+        lemma_cnt_nonneg(h.drop_last(), 0, s);
+        lemma_cnt_full_suit(h.drop_last(), s);
+        assert forall|k: int| 0 <= k < h.len() implies (#[trigger] h[k]).1 == s by {
+            if k < h.len() - 1 { assert(h[k] == h.drop_last()[k]); }
+        }
+    }
+}
+
+pub proof fn lemma_find_card(cards: Seq<Card>, r: int, s: Suit) -> (i: int)
+    requires cnt_card(cards, r, s) >= 1,
+    ensures 0 <= i < cards.len(), rank_code(cards[i].0) == r, cards[i].1 == s,
+    decreases cards.len()
+{
+    if rank_code(cards.last().0) == r && cards.last().1 == s { cards.len() - 1 } else { lemma_find_card(cards.drop_last(), r, s) }
+}
+
+pub proof fn lemma_find_offsuit(cards: Seq<Card>, s: Suit) -> (i: int)
+    requires cnt_suit(cards, s) < cards.len(),
+    ensures 0 <= i < cards.len(), cards[i].1 != s,
+    decreases cards.len()
+{
+    if cards.last().1 != s { cards.len() - 1 } else { lemma_find_offsuit(cards.drop_last(), s) }
+}
+
+pub proof fn lemma_find_offsuit2(cards: Seq<Card>, s: Suit) -> (p: (int, int))
+    requires cnt_suit(cards, s) + 2 <= cards.len(),
+    ensures 0 <= p.0 < p.1 < cards.len(), cards[p.0].1 != s, cards[p.1].1 != s,
+    decreases cards.len()
+{
+    if cards.last().1 != s {
+        let i = lemma_find_offsuit(cards.drop_last(), s);
+        (i, cards.len() - 1)
+    } else { lemma_find_offsuit2(cards.drop_last(), s) }
+}
+
+/// off-suit cards of two different ranks are at most all off-suit cards
+pub proof fn lemma_two_off(h: Seq<Card>, s: Suit, a: int, b: int, from: int)
+    requires 0 <= from <= 13, from <= a < b < 13,
+    ensures (cnt_rank(h, a) - cnt_card(h, a, s)) + (cnt_rank(h, b) - cnt_card(h, b, s)) <= rsum(h, from) - csum(h, s, from),
+    decreases 13 - from
+{
+    lemma_off_nonneg(h, s, from);
+    if from < a {
+        lemma_two_off(h, s, a, b, from + 1);
+    } else {
+        lemma_one_off(h, s, b, from + 1);
+    }
+}
+
+pub proof fn lemma_one_off(h: Seq<Card>, s: Suit, b: int, from: int)
+    requires 0 <= from <= b < 13,
+    ensures cnt_rank(h, b) - cnt_card(h, b, s) <= rsum(h, from) - csum(h, s, from),
+    decreases 13 - from
+{
+    lemma_off_nonneg(h, s, from);
+    if from < b { lemma_one_off(h, s, b, from + 1); } else { lemma_off_sum_nonneg(h, s, from + 1); }
+}
+
+pub proof fn lemma_off_nonneg(h: Seq<Card>, s: Suit, r: int)
+    ensures cnt_rank(h, r) - cnt_card(h, r, s) >= 0,
+    decreases h.len()
+{
+    if h.len() > 0 { lemma_off_nonneg(h.drop_last(), s, r); }
+}
+
+pub proof fn lemma_off_sum_nonneg(h: Seq<Card>, s: Suit, from: int)
+    requires 0 <= from <= 13,
+    ensures rsum(h, from) - csum(h, s, from) >= 0,
+    decreases 13 - from
+{
+    if from < 13 { lemma_off_sum_nonneg(h, s, from + 1); lemma_off_nonneg(h, s, from); }
+}
+
+/// five of seven distinct cards, at most two of them off the suit s, are neither quads nor a full house
+pub proof fn lemma_no_quads_fh(h: Seq<Card>, s: Suit)
+    requires h.len() == 5, distinct_cards(h), cnt_suit(h, s) >= 3,
+    ensures pattern_cat(mult(h), false) != 7, pattern_cat(mult(h), false) != 6,
+{
+    let q = mult(h);
+    lemma_rsum_total(h);
+    lemma_csum_total(h, s);
+    lemma_first_eq_prop(q, 4, 0);
+    lemma_first_eq_prop(q, 3, 0);
+    lemma_first_eq_prop(q, 2, 0);
+    let four = first_eq(q, 4, 0);
+    let three = first_eq(q, 3, 0);
+    let two = first_eq(q, 2, 0);
+    if four < 13 {
+        lemma_cnt_card_distinct(h, four, s);
+        lemma_cnt_nonneg(h, four, s);
+        lemma_one_off(h, s, four, 0);
+    }
+    if three < 13 && two < 13 {
+        lemma_cnt_card_distinct(h, three, s);
+        lemma_cnt_card_distinct(h, two, s);
+        lemma_cnt_nonneg(h, three, s);
+        lemma_cnt_nonneg(h, two, s);
+        if three < two { lemma_two_off(h, s, three, two, 0); } else { lemma_two_off(h, s, two, three, 0); }
+    }
+}
+
+/// a five-card sub-hand of the flush suit whose rank vector is a prescribed five-subset f5 of the suit's ranks
+pub proof fn lemma_flush_pick(cards: Seq<Card>, s: Suit, f5: Seq<u8>) -> (p: (int, int))
+    requires cards.len() == 7, distinct_cards(cards), cnt_suit(cards, s) >= 5,
+        sub_le(f5, suit_mult(cards, s)), vsum(f5, 0) == 5,
+    ensures 0 <= p.0 < p.1 < 7, same_suit(without2(cards, p.0, p.1)), without2(cards, p.0, p.1)[0].1 == s,
+        suit_mult(without2(cards, p.0, p.1), s) == f5,
+{
+    let k = cnt_suit(cards, s);
+    let f = suit_mult(cards, s);
+    lemma_cnt_suit_total(cards);
+    lemma_suit_mult_ok(cards, s);
+    lemma_csum_total(cards, s);
+    lemma_vsum_suit_mult(cards, s, 0);
+    lemma_vsum_le(f5, f, 0);
+    let (i, j) = if k == 7 {
+        let a = lemma_find_gap(f5, f, 0);
+        let fa = vdec(f, a);
+        lemma_vsum_dec(f, a, 0);
+        assert(sub_le(f5, fa)) by { assert forall|r: int| 0 <= r < 13 implies #[trigger] f5[r] <= fa[r] by { assert(f5[r] <= f[r]); } }
+        lemma_vsum_le(f5, fa, 0);
+        let b = lemma_find_gap(f5, fa, 0);
+        assert(a != b);
+        lemma_cnt_nonneg(cards, a, s);
+        lemma_cnt_nonneg(cards, b, s);
+        let x = lemma_find_card(cards, a, s);
+        let y = lemma_find_card(cards, b, s);
+        if x < y { (x, y) } else { (y, x) }
+    } else if k == 6 {
+        let a = lemma_find_gap(f5, f, 0);
+        lemma_cnt_nonneg(cards, a, s);
+        let x = lemma_find_card(cards, a, s);
+        let y = lemma_find_offsuit(cards, s);
+        if x < y { (x, y) } else { (y, x) }
+    } else {
+        lemma_find_offsuit2(cards, s)
+    };
+    let h = without2(cards, i, j);
+    lemma_without2_counts(cards, i, j, s, 0);
+    assert(cnt_suit(h, s) == 5);
+    lemma_cnt_full_suit(h, s);
+    assert(same_suit(h) && h[0].1 == s);
+    let hv = suit_mult(h, s);
+    lemma_csum_total(h, s);
+    lemma_vsum_suit_mult(h, s, 0);
+    assert(sub_le(f5, hv)) by {
+        assert forall|r: int| 0 <= r < 13 implies #[trigger] f5[r] <= hv[r] by {
+            lemma_without2_counts(cards, i, j, s, r);
+            lemma_cnt_nonneg(cards, r, s);
+            lemma_cnt_nonneg(h, r, s);
+            assert(f5[r] <= f[r]);
+            assert(0 <= f[r] <= 1);
+        }
+    }
+    lemma_vsum_le(f5, hv, 0);
+    assert(hv =~= f5);
+    (i, j)
+}
+
+/// every five-card sub-hand of a hand with >= 5 cards of suit s is no better than the best suited five
+pub proof fn lemma_flush_lower(cards: Seq<Card>, s: Suit, i: int, j: int)
+    requires cards.len() == 7, distinct_cards(cards), classes_ok(), cnt_suit(cards, s) >= 5, 0 <= i < j < 7,
+    ensures class7(cards) <= class5_cards(without2(cards, i, j)),
+{
+    let k = cnt_suit(cards, s);
+    let f = suit_mult(cards, s);
+    lemma_class7_flush(cards, s);
+    lemma_cnt_suit_total(cards);
+    lemma_suit_mult_ok(cards, s);
+    lemma_csum_total(cards, s);
+    lemma_vsum_suit_mult(cards, s, 0);
+    let h = without2(cards, i, j);
+    lemma_without2_distinct(cards, i, j);
+    lemma_without2_counts(cards, i, j, s, 0);
+    if same_suit(h) {
+        let t = h[0].1;
+        lemma_all_suit(h, t);
+        lemma_without2_counts(cards, i, j, t, 0);
+        assert(t == s);
+        assert(sub_le(suit_mult(h, s), f)) by {
+            assert forall|r: int| 0 <= r < 13 implies #[trigger] suit_mult(h, s)[r] <= f[r] by {
+                lemma_without2_counts(cards, i, j, s, r);
+                lemma_cnt_nonneg(cards, r, s);
+                lemma_cnt_nonneg(h, r, s);
+            }
+        }
+        lemma_csum_total(h, s);
+        lemma_vsum_suit_mult(h, s, 0);
+        lemma_best_of_lower(f, suit_mult(h, s), true, k);
+    } else {
+        // the best suited sub-hand is a flush or straight flush (class <= 1599); h is neither, nor quads, nor a full house
+        let f5 = lemma_best_of_attained(f, true, k);
+        assert(vec_ok(f5, 1)) by { assert forall|r: int| 0 <= r < 13 implies 0 <= #[trigger] f5[r] <= 1 by { assert(f5[r] <= f[r] && 0 <= f[r] <= 1); } }
+        assert(class5_slot_ok(f5, true));
+        lemma_first_eq_prop(f5, 4, 0);
+        lemma_first_eq_prop(f5, 3, 0);
+        lemma_first_eq_prop(f5, 2, 0);
+        assert(class7(cards) <= 1599);
+        lemma_mult_ok(h);
+        lemma_rsum_total(h);
+        lemma_vsum_mult(h, 0);
+        assert(class5_slot_ok(mult(h), false));
+        lemma_no_quads_fh(h, s);
+    }
+}
+
+/// C01, first principles, hands with five or more cards of suit s
+pub proof fn lemma_class7_is_best_flush(cards: Seq<Card>, s: Suit)
+    requires cards.len() == 7, distinct_cards(cards), classes_ok(), cnt_suit(cards, s) >= 5,
+    ensures is_best7(cards, class7(cards)),
+{
+    let k = cnt_suit(cards, s);
+    let f = suit_mult(cards, s);
+    lemma_class7_flush(cards, s);
+    lemma_cnt_suit_total(cards);
+    lemma_suit_mult_ok(cards, s);
+    lemma_csum_total(cards, s);
+    lemma_vsum_suit_mult(cards, s, 0);
+    assert forall|i: int, j: int| 0 <= i < j < 7 implies class7(cards) <= class5_cards(#[trigger] without2(cards, i, j)) by {
+        lemma_flush_lower(cards, s, i, j);
+    }
+    let f5 = lemma_best_of_attained(f, true, k);
+    let p = lemma_flush_pick(cards, s, f5);
+    assert(class7(cards) == class5_cards(without2(cards, p.0, p.1)));
+}
+
+/// C01: for any seven distinct cards, class7 is the class of the best five-card hand they contain
+pub proof fn lemma_class7_is_best(cards: Seq<Card>)
+    requires cards.len() == 7, distinct_cards(cards), classes_ok(),
+    ensures is_best7(cards, class7(cards)),
+{
+    if exists|s: Suit| cnt_suit(cards, s) >= 5 {
+        let s = choose|s: Suit| cnt_suit(cards, s) >= 5;
+        lemma_class7_is_best_flush(cards, s);
+    } else {
+        lemma_class7_is_best_noflush(cards);
+    }
+}
